@@ -84,6 +84,23 @@ def build(shard, vi, seed):
     return o, dict(M=M[0], b=b[0], A=A[0], w0=W[:, 0], w=W[:, 1:], link=shard["link"])
 
 
+UNIT = 2.0 ** -10  # ~1e-3, a power of two: rescaling lengths is then exact in floating point
+
+
+def build_scaled(shard, par, u):
+    """The same model with x and y measured in units 1/u (lengths, centres, offsets, noise scaled; an absolute constant anywhere in the library shows up)."""
+    kind, Dx = shard["kind"], shard["Dx"]
+    if kind == "LRBF":
+        M = np.concatenate([par["M"][:, :Dx], par["M"][:, Dx:] * u], axis=1)
+        return ac.LRBFGaussianConditional(M=J(M[None]), b=J(par["b"][None] * u), mu=J(par["cen"] * u), length_scale=J(par["ls"] * u), Sigma=J(par["Sy"][None] * u * u))
+    if kind == "LSEM":
+        M = np.concatenate([par["M"][:, :Dx], par["M"][:, Dx:] * u], axis=1)
+        W = np.concatenate([par["w0"][:, None], par["w"] / u], axis=1)
+        return ac.LSEMGaussianConditional(M=J(M[None]), b=J(par["b"][None] * u), W=J(W), Sigma=J(par["Sy"][None] * u * u))
+    W = np.concatenate([par["w0"][:, None], par["w"] / u], axis=1)
+    return LINKS[shard["link"]](M=J(par["M"][None]), b=J(par["b"][None] * u), A=J(par["A"][None] * u), W=J(W))
+
+
 def bumps(par, kind, X):
     """Unit-height Gaussian bumps k(x) [P, Dk] by the documented formula."""
     if kind == "LRBF":
@@ -286,6 +303,20 @@ def run_shard(shard, ctx):
                 ctx.close("conditional.Sigma", got["cS"], np.array([c[2] for c in cm]), facts=f2, tol=1e-7)
                 if vi == 0 and Rx == 1 and oracle == "closed_form":
                     ctx.sample(dict(shard=shard["id"], params={k: v for k, v in par.items()}, p_x=dict(mu=mx, Sigma=Sx), E_y=Ey, Cov_y=Cy, Cov_yx=Cyx))
+            # ---- change of units: the same model with all lengths scaled by 2^-10 gives the same answers, rescaled ----
+            if vi in (0, 100):
+                u = UNIT
+                with ctx.guard("units.call", facts) as g:
+                    cs = build_scaled(shard, par, u)
+                    ps = objs.mk_pdf(pxk, Sx * u * u, mx * u)
+                    s_y = cs.affine_marginal_transformation(ps)
+                    s_xy = cs.affine_joint_transformation(ps)
+                    s_c = cs.affine_conditional_transformation(ps)
+                    gs = dict(my=np.asarray(s_y.mu) / u, Sy=np.asarray(s_y.Sigma) / (u * u), mj=np.asarray(s_xy.mu) / u, Sj=np.asarray(s_xy.Sigma) / (u * u), cM=np.asarray(s_c.M), cb=np.asarray(s_c.b) / u, cS=np.asarray(s_c.Sigma) / (u * u))
+                if g.ok:
+                    sc = float(max(1.0, np.max(np.abs(got["Sy"]))))
+                    for k in ("my", "Sy", "mj", "Sj", "cM", "cb", "cS"):
+                        ctx.close("units." + k, gs[k], got[k], scale=sc, facts=facts, tol=1e-7 if k[0] == "c" else 1e-8)
             # ---- histories: the SAME conditional object and the SAME p_x object, used again after an in-place change ----
             phases = [("px_replaced", None), ("px_updated", None)]
             if kind in ("LRBF", "LSEM"):
